@@ -36,6 +36,18 @@ CHECKS = {
  "C08": ("exploration", "reference-model monitor: pending-pool model from the statement; exhaustive small scope over arrival orders x gap patterns + random runs",
          "Every brc20_transact and finalise on the real engine is compared with a pool model (receipts count/indexes/nonces/sender, txpool_contentFrom, eth_getTransactionCount); all arrival orders of 3 (quick) / 4 (thorough) nonces x gap patterns {0,1,9,10,11} with duplicate/replacement/noise variants, plus random multi-signer runs with reorgs and clearCaches.",
          "Successors of an expired entry are left unspecified (both behaviours admitted); exhaustive only inside the stated small scope."),
+ "C05": ("exploration", "differential twin (history with rejected calls vs history without them) + must-reject table, Obs at boundaries and mid-block",
+         "Out-of-protocol and malformed brc20_* calls are injected at arbitrary positions (also mid-block) into a generated history on the real engine; a clean twin gets the history minus exactly the calls that errored; remaining responses, Obs (boundary + non-executing part mid-block incl. txpool) and finalisability are compared; every listed protocol violation must be refused.",
+         "brc20_transact calls that end up ignored/parked are not judged on tx_idx/timestamp/hash; sampled injections."),
+ "C10": ("exploration", "differential twin with/without read bursts + Obs before/after + raw RocksDB contents diff + failpoint write observer",
+         "Read bursts (executing reads with state-mutating bytecode, multi-call carry-over, estimate loops, precompile overrides, error path; non-executing reads mid-block) are interleaved into a generated history; a twin gets the history without reads; indexer responses, Obs and, after commit+close, every RocksDB table of both directories are compared; the write observer must see no persistent write while reads are served.",
+         "Sampled read mixes; block rows compared with mineTimestamp zeroed."),
+ "C16": ("exploration", "arithmetic monitor on receipts + closed estimate loop on the real engine + state-effect comparison for starved transactions",
+         "For generated programs and inscription lengths 0..2^64-1: gasUsed <= saturating(12000 x L) on every receipt (inscription, signed, drained); a starved transaction may change only its sender's nonce (state part of Obs before/after); eth_estimateGas + eth_call at a boundary, then the same call executed with L = ceil(estimate/12000) must succeed with the same output.",
+         "Programs that swallow inner failures (gas-observing through the 63/64 rule) are excluded from the estimate loop, as the statement excludes gas-inspecting code; sampled programs."),
+ "C17": ("exploration", "self-consistency differential: eth_call then the same transaction executed next, compared on status/output/created code/address",
+         "On the real engine, in chain states reached by random histories (also after reorgs), eth_call (and eth_callMany sequences) are compared with the transaction(s) executed next from the same sender (inscription and signed), using receipt status, trace output, installed code and nonce-derived addresses.",
+         "Time/randomness/gas/txid-reading code excluded as in the statement; output comparison needs traces (regtest/signet workers)."),
 }
 NOT_YET = "check not built yet in this session (planned, see DESIGN.md)"
 ALL = ["C%02d" % i for i in range(1, 21)]
